@@ -17,7 +17,7 @@ def answers_agree(request, impl, model):
 
 
 # protocols whose model answer is "ok ..." / "no ..." (the implementation's answer is part of the request)
-MEMBERSHIP = set()
+MEMBERSHIP = {"expr"}
 
 
 def nontrivial(request, impl):
@@ -32,6 +32,9 @@ def nontrivial(request, impl):
         return "0a" in parts[2] or "0d" in parts[2]
     if proto == "num":
         return parts[1].startswith("2e")
+    if proto == "expr":
+        # non-trivial: the output tree differs from the input tree (some parenthesis decision taken)
+        return parts[3] != parts[4]
     return True
 
 
@@ -57,4 +60,21 @@ PROPS["C04"] = {
         "string bodies are compared as Unicode scalar sequences (the unit the regex matches on)",
         "long-bracket value theorem excludes bodies with a lone CR (reported separately)",
     ],
+}
+
+PROPS["C05"] = {
+    "lean_modules": ["StyluaModel.Props.C05"],
+    "theorem_prefix": "C05_",
+    "required_theorems": ["C05_single", "C05_hang"],
+    "hx": [["c05"]],
+    "level": "proof",
+    "level_text": "Proof: for the Lean model of check_excess_parentheses / format_expression_internal / hang_binop_expression / format_hanging_expression_ (all layout answers universally quantified as an oracle), every result is faithful (re-parses to itself under the precedence-climbing spec) and has the same meaning as the input, on the single-line and on the hanging path, for expressions of any size. The model is tied to expression.rs by a correspondence over all depth-2 trees x 12 syntactic contexts x 3 width classes plus seeded deeper trees.",
+    "level_note": "Trusted: Lean kernel; hand-written model (ParenRule.lean) tied by ~7e4 distinct membership requests per run; Spec.Prec.faithful validated (not proven) against full_moon round trips on the same trees; if-expressions are opaque in the model (their parts are separate entries); assert-over-unary corner of full_moon's `::` postfix is outside the validated domain.",
+    "technique": "Lean 4 structural-induction proof over an oracle-parameterised model + exhaustive small-scope model/implementation correspondence",
+    "rule": "ring 2: all expression trees of depth <= 2 over {or, <, .., +, ^} x {-, not} x {name, call, ...} with parentheses at every position (16 419 trees) + Luau assertion trees + seeded random trees of depth 3-5 over all 21 binary operators; each placed in 12 contexts (local, assignment, return, if/while/repeat condition, last/middle call argument, positional/named table field, index, prefix) at widths {120, 40, 10} (thorough adds 20, 1, 60); real output re-parsed with full_moon and its token sequence must be one the model admits (single-line result or hanging result for some oracle). distinct_nontrivial = distinct requests where the output tree differs from the input tree. ring 3: independent position-aware normal form (parentheses forgotten except truncation in multi-value positions) of input vs output.",
+    "trusted_base": [
+        "Spec.Prec.faithful / okAt mirror full_moon parsers.rs (precedence climbing, unary precedence 11, `::` postfix) and are validated against full_moon round trips on every run, not proven",
+        "layout (Shape arithmetic, ~40 heuristics) is abstracted as a universally quantified oracle; which oracle the real run corresponds to is not modelled",
+    ],
+    "assumptions": ["if-expressions are opaque leaves of the expression model (right-open, never unparenthesised)"],
 }
